@@ -268,6 +268,11 @@ theorem ws_close_or_text_is_failure (s : State) (hr : s.reader = .idle) :
   rw [h1, h2]
   refine ⟨rfl, rfl, ?_, ?_⟩ <;> simp [ctlStep, step, hr, Failed]
 
+/-- The model has no clock: the only way a connection fails is a read error (`readErr`). Premise: the
+response loops, the failure path and `connect` set no timer, deadline or socket read timeout of their own
+(re-extracted; any such arm is a pessimistic fact), so a slow peer is never taken for a dead one. -/
+theorem readers_have_no_timer : Gen.Mux.readersHaveNoTimer = [true, true, true] := by decide
+
 /-- Dropping a handle of the WebSocket client closes the connection only when it was the last one
 (`Drop for WebSocketClient`, re-extracted): the other handles keep being served. In the model handles are
 not objects at all — this is the premise that makes that sound. -/
